@@ -22,7 +22,7 @@ RULE = ("MC: McpGateMC, every row of the gating table and every argument-shape r
         "the complete table (35 names x 3 roles x 4 flag combinations x principal present/absent x actor absent/equal/different "
         "= 2520 rows) plus the argument-shape rows (foreign / ../ / symlinked paths and pid files, unknown keys, wrong types, "
         "actor variants, config content that does not parse / compile, write modes, malformed arguments member, Admin-proxy "
-        "backend) under four server configurations; EXEC: each row on a real mcp.Server over stdio JSON-RPC (L1, in-process, "
+        "backend, servers started with an empty --config / --pid-file / --db) under four server configurations; EXEC: each row on a real mcp.Server over stdio JSON-RPC (L1, in-process, "
         "wired as internal/app/mcp.go) and on the real binary `hookaido mcp serve` (L2) in a private scratch environment; TV: "
         "every call validated by TLC against McpGate.tla - class, tools/list before and after, no effect on config file / queue "
         "database / forwarded Admin requests / processes when refused, exactly one audit record with the seven fields per "
@@ -318,7 +318,8 @@ def run(ctx):
     # audit sink = stderr); quick: the gating table proper, thorough: the argument-shape rows as well
     if ctx.quick:   # the actor dimension is decided inside the tool, it does not depend on the wiring
         l2 = [r for r in rows if r["shape"] == "minimal" and r["actor"] == "absent"]
-        l2 += [r for r in rows if r["shape"] in ("actor_case", "pid_foreign", "path_foreign", "content_nocompile_write")]
+        l2 += [r for r in rows if r["shape"] in ("actor_case", "pid_foreign", "path_foreign", "content_nocompile_write",
+                                                 "nocfg_path_newdir", "nocfg_path_scratch", "nopid_pid_scratch", "nodb_minimal")]
     else:
         l2 = [r for r in rows if r["shape"] != "random"] + [r for r in rows if r["shape"] == "random"][:3000]
     l2_file = os.path.join(ctx.scratch, "rows-l2.ndjson")
